@@ -169,6 +169,11 @@ def corruptions(doc, ver, clsname=None, dictionary=None):
             out.append(_set(p, "ext:unknown", {"x-unknown-ext": {"a": 1}}))
             out.append(_set(p, "ext:nondict-value", {"archive-ext": 5}))
             out.append(_set(p, "ext:bad-extdef-id", {"extension-definition--nope": {"extension_type": "property-extension", "a": 1}}))
+            if ver == "2.1":
+                E = "extension-definition--3f2504e0-4f89-41d3-9a0c-0305e82c3301"
+                out.append(_set(p, "ext:null-in-unregistered-body", {E: {"extension_type": "property-extension", "a": None}}))
+                out.append(_set(p, "ext:empty-list-in-unregistered-body", {E: {"extension_type": "property-extension", "a": []}}))
+                out.append(_set(p, "ext:null-deep-in-unregistered-body", {E: {"extension_type": "property-extension", "a": {"b": ["x", None]}}}))
         elif k == "pattern":
             out.extend([_set(p, "pattern:syntax", "[file:name = ]"), _set(p, "pattern:unbalanced", "[file:name = 'a'"), _set(p, "pattern:text", "not a pattern")])
         elif k == "string":
@@ -294,6 +299,8 @@ def constraint_breaks(doc, ver, clsname, path=()):
             if n == "socket-options" and "options" in doc:
                 out.append({"path": list(path) + ["options"], "op": "set", "kind": "constraint:socket-option-key", "value": {"FOO_BAR": 1}})
                 out.append({"path": list(path) + ["options"], "op": "set", "kind": "constraint:socket-option-value", "value": {"SO_RCVBUF": "big"}})
+                out.append({"path": list(path) + ["options"], "op": "set", "kind": "constraint:socket-option-value:boolean", "value": {"SO_RCVBUF": True}})
+                out.append({"path": list(path) + ["options"], "op": "set", "kind": "constraint:socket-option-value:second-of-two", "value": {"SO_RCVBUF": 1, "SO_SNDBUF": "big"}})
     return out
 
 
